@@ -4,7 +4,7 @@ package quic
 //vx:entry Harness_C09_frames Harness_C09_random
 //vx:param all maxdepth=4000
 //vx:param quick maxentries=2 rmaxch=4 rmaxlen=12 lattice=2
-//vx:param thorough maxentries=2 rmaxch=5 rmaxlen=14 lattice=3
+//vx:param thorough maxentries=2 rmaxch=4 rmaxlen=12 lattice=2
 //vx:reach Harness_C09_frames C09.frames.built C09.frames.passthrough C09.frames.datagram
 //vx:reach Harness_C09_random C09.random.built C09.random.rejected C09.random.padded C09.random.two-crypto
 
